@@ -7,6 +7,7 @@ import (
 	"fmt"
 	"go/ast"
 	"go/types"
+	"net/textproto"
 	"strings"
 )
 
@@ -16,9 +17,90 @@ func (fx *Fx) stdlibCall(st *State, fn *types.Func, recvExpr ast.Expr, call *ast
 		if strings.HasPrefix(fn.FullName(), "(*sync.") && fx.mutexCall(st, fn.FullName(), recvExpr) {
 			return nil
 		}
+		if strings.HasPrefix(fn.FullName(), "(*strings.Builder).") {
+			p := fx.evalPlace(st, recvExpr, spec)
+			var args []Val
+			for _, a := range call.Args {
+				args = append(args, fx.eval(st, a, spec))
+			}
+			cur := fx.get(st, p)
+			if cur.S == SRef { // *strings.Builder
+				l := fx.derefLoc(st, cur)
+				p = Place{loc: l}
+				cur = fx.load(st, l)
+			}
+			fx.assumed["strings.Builder is modelled by its content (WriteString/WriteByte append, Reset empties, String reads)"] = true
+			bt := cur.T
+			switch fn.Name() {
+			case "WriteString":
+				fx.assignTo(st, p, Val{T: bt, S: SStr, X: app("sconcat", cur.X, args[0].X)})
+				return []Val{{T: types.Typ[types.Int], S: SInt, X: app("slen", args[0].X)}, {S: SRef, X: "nil"}}
+			case "WriteByte":
+				b := fx.d.freshConst("onebyte", SStr)
+				st.assume(and(app("=", app("slen", b), "1"), app("=", app("sat", b, "0"), args[0].X)))
+				fx.assignTo(st, p, Val{T: bt, S: SStr, X: app("sconcat", cur.X, b)})
+				return []Val{{S: SRef, X: "nil"}}
+			case "String":
+				return []Val{{T: types.Typ[types.String], S: SStr, X: cur.X}}
+			case "Reset":
+				fx.assignTo(st, p, Val{T: bt, S: SStr, X: "str_empty"})
+				return nil
+			case "Len":
+				return []Val{{T: types.Typ[types.Int], S: SInt, X: app("slen", cur.X)}}
+			}
+			panic(unsupported("strings.Builder method " + fn.Name()))
+		}
 		if strings.HasPrefix(fn.FullName(), "(*log/slog.Logger).") {
 			fx.note("log/slog calls are skipped (no effect on tracked state)")
 			return nil
+		}
+		if fn.FullName() == "(*net/http.Client).Do" {
+			recv := fx.eval(st, recvExpr, spec)
+			req := fx.eval(st, call.Args[0], spec)
+			sig := fn.Type().(*types.Signature)
+			// ghost snapshot of the Last-Event-Id header of the request at the time of the call
+			reqLoc := fx.derefLoc(st, req)
+			hv := fx.fieldOf(st, fx.load(st, reqLoc), "Header", nil)
+			hm := hv.T.Underlying().(*types.Map)
+			key := "Last-Event-Id"
+			kv := Val{T: types.Typ[types.String], S: SStr, X: fx.d.strLit(key), Lit: &key}
+			n := fx.trCount(st)
+			has := fx.mapHas(st, hv, hm, kv)
+			ids := fx.mapGet(st, hv, hm, kv)
+			st.trCols["do_hasid"] = app("store", fx.trCol(st, "do_hasid", SBool), n, has)
+			st.trCols["do_idlen"] = app("store", fx.trCol(st, "do_idlen", SInt), n, fx.seqLen(ids))
+			st.trCols["do_id"] = app("store", fx.trCol(st, "do_id", SStr), n, fx.indexVal(st, ids, "0", types.Typ[types.String]).X)
+			bodyV := fx.fieldOf(st, fx.load(st, reqLoc), "Body", nil)
+			st.trCols["do_body"] = app("store", fx.trCol(st, "do_body", SRef), n, bodyV.X)
+			rs := fx.abstractCall(st, recv.X, "Do", []Val{req}, sig, call)
+			res, err := rs[0], rs[1]
+			urlErr := fx.v.lookupType("net/url", "Error")
+			st.assume(implies(not(app("=", err.X, "nil")), and(app("=", res.X, "nil"), app("=", app("dyntype", err.X), fmt.Sprint(fx.v.typeID(types.NewPointer(urlErr)))))))
+			st.assume(implies(app("=", err.X, "nil"), not(app("=", res.X, "nil"))))
+			if urlErr != nil {
+				// a *url.Error always wraps a cause
+				cell := fx.load(st, &Loc{kind: locCell, key: cellKey(urlErr), ref: err.X, T: urlErr})
+				cause := fx.fieldOf(st, cell, "Err", nil)
+				st.assume(implies(not(app("=", err.X, "nil")), not(app("=", cause.X, "nil"))))
+			}
+			fx.assumed["net/http: Client.Do returns a non-nil response or a *url.Error wrapping a non-nil cause"] = true
+			return rs
+		}
+		if fn.FullName() == "(*time.Timer).Reset" || fn.FullName() == "(*time.Timer).Stop" {
+			recv := fx.eval(st, recvExpr, spec)
+			var args []Val
+			for _, a := range call.Args {
+				args = append(args, fx.eval(st, a, spec))
+			}
+			return fx.abstractCall(st, recv.X, "Timer"+fn.Name(), args, fn.Type().(*types.Signature), call)
+		}
+		if fn.FullName() == "(*net/http.Request).Clone" {
+			fx.eval(st, recvExpr, spec)
+			for _, a := range call.Args {
+				fx.eval(st, a, spec)
+			}
+			fx.assumed["stdlib model: (*net/http.Request).Clone returns a new request"] = true
+			return []Val{{T: fn.Type().(*types.Signature).Results().At(0).Type(), S: SRef, X: fx.alloc(st, "request")}}
 		}
 		if fn.FullName() == "(*net/http.Request).Context" {
 			return []Val{fx.freshVal(st, "ctx", fn.Type().(*types.Signature).Results().At(0).Type())}
@@ -106,6 +188,14 @@ func (fx *Fx) stdlibCall(st *State, fn *types.Func, recvExpr ast.Expr, call *ast
 	case "net/http.Error":
 		// recorded in the ghost call trace as a call on the response writer
 		return fx.abstractCall(st, args[0].X, "httpError", args[1:], nil, call)
+	case "time.NewTimer":
+		r := fx.alloc(st, "timer")
+		return []Val{{T: sig.Results().At(0).Type(), S: SRef, X: r}}
+	case "bufio.NewScanner":
+		r := fx.alloc(st, "scanner")
+		fx.scannerCell(st, r)
+		fx.scannerStore(st, r, "(mk_GScanner false nil str_empty false)")
+		return []Val{{T: sig.Results().At(0).Type(), S: SRef, X: r}}
 	case "time.Now":
 		r := fx.d.freshConst("now", SInt)
 		st.assume(not(app("=", r, "0")))
@@ -143,8 +233,59 @@ func (fx *Fx) indexByte(st *State, s, c Val) Val {
 	return Val{T: types.Typ[types.Int], S: SInt, X: r}
 }
 
+// ---------- bufio.Scanner: assumed contract with ghost state {done, err, tok, started} ----------
+
+const scannerSort = "GScanner"
+
+func (fx *Fx) scannerCell(st *State, sc string) string {
+	fx.d.ensureSort(scannerSort, "(declare-datatypes ((GScanner 0)) (((mk_GScanner (sc_done Bool) (sc_err Ref) (sc_tok Str) (sc_started Bool)))))")
+	h := fx.heapTerm(st, "ghost_scanner", scannerSort)
+	return app("select", h, sc)
+}
+
+func (fx *Fx) scannerStore(st *State, sc, cell string) {
+	h := fx.heapTerm(st, "ghost_scanner", scannerSort)
+	st.heap["ghost_scanner"] = fx.share(app("store", h, sc, cell), "(Array Ref "+scannerSort+")")
+}
+
+func (fx *Fx) scannerMethod(st *State, name string, recv Val, args []Val, sig *types.Signature) ([]Val, bool) {
+	c := fx.scannerCell(st, recv.X)
+	done, err, tok, started := app("sc_done", c), app("sc_err", c), app("sc_tok", c), app("sc_started", c)
+	fx.assumed["bufio.Scanner contract: Scan returns false exactly when the input is exhausted or an error is set, Err() then returns that error (io.EOF as nil); tokens come from the split function"] = true
+	switch name {
+	case "(*bufio.Scanner).Scan":
+		b := fx.d.freshConst("scan", SBool)
+		st.assume(implies(done, not(b)))
+		ntok := fx.d.freshConst("token", SStr)
+		nerr := fx.d.freshConst("scanerr", SRef)
+		fx.older(st, nerr)
+		fx.scannerStore(st, recv.X, app("mk_GScanner", or(done, not(b)), ite(or(done, b), err, nerr), ite(b, ntok, tok), "true"))
+		if st.ghost["scan_count"].X == "" {
+			st.ghost["scan_count"] = Val{S: SInt, X: "0"}
+		}
+		return []Val{{T: types.Typ[types.Bool], S: SBool, X: b}}, true
+	case "(*bufio.Scanner).Text":
+		return []Val{{T: types.Typ[types.String], S: SStr, X: tok}}, true
+	case "(*bufio.Scanner).Bytes":
+		return []Val{{T: types.NewSlice(types.Typ[types.Byte]), S: SStr, X: tok}}, true
+	case "(*bufio.Scanner).Err":
+		return []Val{{T: sig.Results().At(0).Type(), S: SRef, X: ite(done, err, "nil")}}, true
+	case "(*bufio.Scanner).Buffer":
+		if fx.inSpec == 0 {
+			fx.oblige(st, "panic", "Scanner.Buffer after Scan", not(started), "bufio.Scanner.Buffer panics once scanning has started")
+		}
+		return nil, true
+	case "(*bufio.Scanner).Split":
+		return nil, true
+	}
+	return nil, false
+}
+
 func (fx *Fx) stdlibMethod(st *State, fn *types.Func, recv Val, args []Val) ([]Val, bool) {
 	name := fn.FullName()
+	if strings.HasPrefix(name, "(*bufio.Scanner).") {
+		return fx.scannerMethod(st, name, recv, args, fn.Type().(*types.Signature))
+	}
 	boolV := func(t string) []Val { return []Val{{T: types.Typ[types.Bool], S: SBool, X: t}} }
 	sig := fn.Type().(*types.Signature)
 	res0 := func() types.Type { return sig.Results().At(0).Type() }
@@ -165,6 +306,22 @@ func (fx *Fx) stdlibMethod(st *State, fn *types.Func, recv Val, args []Val) ([]V
 	case "(time.Duration).Milliseconds":
 		x := recv.X
 		return []Val{{T: res0(), S: SInt, X: ite(app(">=", x, "0"), app("div", x, "1000000"), app("-", app("div", app("-", x), "1000000")))}}, true
+	case "(net/http.Header).Set", "(net/http.Header).Del":
+		m := recv.T.Underlying().(*types.Map)
+		if args[0].Lit == nil {
+			panic(unsupported("http.Header method with a non-literal key"))
+		}
+		ck := textproto.CanonicalMIMEHeaderKey(*args[0].Lit)
+		key := Val{T: types.Typ[types.String], S: SStr, X: fx.d.strLit(ck), Lit: &ck}
+		fx.assumed["net/http.Header.Set/Del canonicalise the key ("+*args[0].Lit+" -> "+ck+") and replace/delete the entry"] = true
+		if fn.Name() == "Del" {
+			fx.mapDelete(st, recv, m, key)
+			return nil, true
+		}
+		ss := fx.d.sortOf(m.Elem())
+		one := app("mk_"+ss, app("store", fx.d.constArray(SStr, "str_empty"), "0", args[1].X), "1")
+		fx.mapSet(st, recv, m, key, Val{T: m.Elem(), S: ss, X: one}, "Header.Set")
+		return nil, true
 	case "(*math/rand.Rand).Float64":
 		r := fx.d.freshConst("rnd", SReal)
 		st.assume(and(app("<=", "0.0", r), app("<", r, "1.0")))
@@ -208,7 +365,7 @@ func (fx *Fx) unbox(st *State, v Val, t types.Type) Val {
 	return Val{T: t, S: s, X: app(f, v.X)}
 }
 
-// box wraps a concrete value into an interface value.
+// box wraps a concrete value into an interface value (a function of the value, so that equal values box equally).
 func (fx *Fx) box(st *State, v Val, iface types.Type) Val {
 	if v.S == SRef {
 		if v.T != nil {
@@ -218,12 +375,15 @@ func (fx *Fx) box(st *State, v Val, iface types.Type) Val {
 		}
 		return Val{T: iface, S: SRef, X: v.X, Fn: v.Fn}
 	}
-	r := fx.d.freshConst("boxed", SRef)
-	st.assume(not(app("=", r, "nil")))
-	if v.T != nil {
-		st.assume(app("=", app("dyntype", r), fmt.Sprint(fx.v.typeID(v.T))))
+	bf := fx.d.declareFun("box_"+sanitize(v.S), []string{v.S}, SRef)
+	r := app(bf, v.X)
+	if fx.inQuant == 0 {
+		st.assume(not(app("=", r, "nil")))
+		if v.T != nil {
+			st.assume(app("=", app("dyntype", r), fmt.Sprint(fx.v.typeID(v.T))))
+		}
+		f := fx.d.declareFun("unbox_"+sanitize(v.S), []string{SRef}, v.S)
+		st.assume(app("=", app(f, r), v.X))
 	}
-	f := fx.d.declareFun("unbox_"+sanitize(v.S), []string{SRef}, v.S)
-	st.assume(app("=", app(f, r), v.X))
 	return Val{T: iface, S: SRef, X: r}
 }
